@@ -398,12 +398,17 @@ pub fn gen_u2(c: &mut Chooser, rule_counts: &[usize], player_counts: &[usize]) -
                     bare_empty: true, marker: false,
                 },
             ]);
-            let val = pick(c, &{
-                let mut a = ustr_alts(["dedicated", "root", "MutInstaGib"][i]);
-                a.push(UStr::plain("True"));
-                a.push(UStr::plain("false"));
-                a
-            });
+            // (the password flag of the response comes from this rule: with the key chosen, its usual values come first)
+            let val = if key.expected() == "GamePassword" {
+                pick(c, &[UStr::plain("True"), UStr::plain("False"), UStr::plain("true"), UStr::plain("TRUE"), UStr::plain(""), UStr::plain("1"), UStr::plain("Truely")])
+            } else {
+                pick(c, &{
+                    let mut a = ustr_alts(["dedicated", "root", "MutInstaGib"][i]);
+                    a.push(UStr::plain("True"));
+                    a.push(UStr::plain("false"));
+                    a
+                })
+            };
             rules.push((key, val));
         } else {
             rules.push((
